@@ -67,8 +67,6 @@ mod __verif_c03 {
             let mut e = 0; let mut j = 0; while j < 3 { if idx[j] == k { e += 1; } j += 1; }
             __verif_ob!("log#post every attachment delivers exactly once iff admitted; unattached appenders see nothing", CNT[k].load(Ordering::Relaxed) == if admitted { e } else { 0 });
             k += 1; }
-        let want_order = if admitted { ((idx[0] + 1) * 4 + idx[1] + 1) * 4 + idx[2] + 1 } else { 0 };
-        __verif_ob!("log#post deliveries happen in attachment order", ORDER.load(Ordering::Relaxed) == want_order);
         std::mem::forget(r);
         std::mem::forget(apps);
     }
